@@ -12,11 +12,13 @@ pub struct C15 {
     pub n: usize,
     /// false: M symbolic symmetric + "every pivot > 0"; true: M = R^T R (R upper triangular, positive diagonal)
     pub rtr: bool,
+    /// only the factor / inverse identities (no determinant, no Sylvester link): affordable for n = 7 in the quick tier
+    pub light: bool,
 }
 
 impl Harness for C15 {
     fn name(&self) -> String {
-        format!("c15/n={}/{}", self.n, if self.rtr { "M=RtR" } else { "M=sym" })
+        format!("c15/n={}/{}{}", self.n, if self.rtr { "M=RtR" } else { "M=sym" }, if self.light { "/inverse-only" } else { "" })
     }
     fn sample_var(&self, name: &str, u: f64) -> f64 {
         let parts: Vec<&str> = name.split('_').collect();
@@ -101,7 +103,7 @@ impl Harness for C15 {
         let inv = |i: usize, j: usize| d.inverse[(i, j)];
         let delta = |i: usize, j: usize| if i == j { one } else { zero };
         // Sylvester link: pivot_i * minor_{i-1} = minor_i (ties "every pivot > 0" to "all leading minors > 0")
-        if !self.rtr && n <= 6 {
+        if !self.rtr && n <= 6 && !self.light {
             let mut prev = one;
             for i in 0..n {
                 let mi = oracle::leading_minor(&m, i + 1);
@@ -130,6 +132,9 @@ impl Harness for C15 {
                 out.prove(format!("Qti.Qt=I[{},{}]", i, j), b, Rel::Eq, delta(i, j));
                 out.prove(format!("inv.M=I[{},{}]", i, j), c, Rel::Eq, delta(i, j));
             }
+        }
+        if self.light {
+            return;
         }
         if self.rtr {
             let mut p = one;
@@ -171,12 +176,13 @@ pub fn run(cfg: &RunCfg) -> PartResult {
         Tier::Quick => ((1..=6).collect(), (1..=3).collect()),
         Tier::Thorough => ((1..=8).collect(), (1..=4).collect()),
     };
-    for &n in &ns_sym {
-        total.merge(check_harness(&C15 { n, rtr: false }, cfg));
+    let mut hs: Vec<C15> = ns_sym.iter().map(|&n| C15 { n, rtr: false, light: false }).collect();
+    hs.extend(ns_rtr.iter().map(|&n| C15 { n, rtr: true, light: false }));
+    if cfg.tier == Tier::Quick {
+        // the heap-spilling sizes (SmallVec inline capacities 36 / 6 / 5 are exceeded from n = 7)
+        hs.push(C15 { n: 7, rtr: false, light: true });
     }
-    for &n in &ns_rtr {
-        total.merge(check_harness(&C15 { n, rtr: true }, cfg));
-    }
+    total.merge(check_harnesses(&hs, cfg));
     total.bounds = json!({
         "matrix_dimension_symbolic_symmetric": ns_sym,
         "matrix_dimension_RtR_parametrisation": ns_rtr,
